@@ -227,6 +227,36 @@ pub fn c09(args: &Args) {
     println!("events {}", out.finish());
 }
 
+/// gen_poly(n) on a scripted stream: the key-generation polynomials are sums of 4096/n sampler outputs
+/// (sigma* = 1.43300980528773, sigma_min = sigma* - 0.001, centre 0).  Recorded with the bytes consumed.
+pub fn genpoly_event(n: usize, stream: Vec<u8>, tag: &str) -> Value {
+    let mut rng = ScriptRng::new(stream);
+    let r = guarded(|| verif::gen_poly(n, &mut rng));
+    let used = rng.pos.min(rng.bytes.len());
+    let (out, panic, exhausted) = match r {
+        Outcome::Ret(v) => (v, false, false),
+        Outcome::Panic(m) if m.starts_with("SCRIPT-EXHAUSTED") => (vec![], false, true),
+        Outcome::Panic(_) => (vec![], true, false),
+    };
+    json!({"ev":"genpoly","n":n,"bytes":bytes_json(&rng.bytes[..used]),"consumed":rng.pos,"exhausted":exhausted,
+           "out":i16s_json(&out),"panic":panic,"tag":tag})
+}
+
+pub fn c09_genpoly(args: &Args) {
+    let seed = args.num("--seed", 1);
+    let dir = PathBuf::from(args.get_or("--out", "work/c09"));
+    let mut out = Shards::create(&dir, "genpoly", args.num("--shards", 4) as usize);
+    let mut rng = rng_for(seed, "genpoly");
+    let ns: Vec<usize> = if args.thorough() { vec![2, 8, 64, 256, 512, 1024] } else { vec![4, 512, 1024] };
+    for n in ns {
+        // enough bytes for 4096 samples at ~1.6 iterations each, with margin
+        let mut s = vec![0u8; 4096 * 17 * 3];
+        rng.fill_bytes(&mut s);
+        out.emit(genpoly_event(n, s, "random-stream"));
+    }
+    println!("events {}", out.finish());
+}
+
 /// Histogram of the sampler's output over uniform bytes, for the distribution test.
 pub fn c09_hist(args: &Args) {
     let seed = args.num("--seed", 1);
